@@ -141,6 +141,8 @@ func TestVerifE5Replay(t *testing.T) {
 		vfE5ReplayF9Put(t, name)
 	case "orphan_resurrect":
 		vfE5ReplayOrphan(t, name)
+	case "empty_while_consumer_drains":
+		vfE5ReplayEmptyDrain(t, name)
 	case "dq_bad_file_after_delete":
 		vfE5ReplayBadFile(t, name)
 	default:
@@ -1772,4 +1774,110 @@ func vfE5ReplayEmptyReqSurvives(t *testing.T, name string) {
 	}
 	fmt.Printf("E5REPLAY %s first_delivery=%d empty=%s empty_waited_for_req=%v depth_after_empty=%d depth_after_req=%d req_failed=%v redelivered=%d held_after_both_returned=%d survived=%v\n",
 		name, vfE5CountMsgs(f1), emp, waited, depthAfterEmpty, depthAfterReq, reqErr, again, heldAfter, !reqErr && heldAfter > 0)
+}
+
+// empty_while_consumer_drains (corpus/C08/empty_while_consumer_drains.sched): unsteered rounds, no hooks.  A channel holds a
+// backlog of a few thousand messages in its memory queue; two goroutines receive from that queue exactly as the
+// messagePumps of two subscribed consumers with spare RDY do; as soon as they have taken their first messages the
+// harness calls Channel.Empty (even rounds) or Topic.DeleteExistingChannel (odd rounds: Channel.exit(deleted) empties as
+// well) - nobody publishes.  Both must return (C08: "may run concurrently with ... delivery ... without deadlocking the
+// daemon"): whatever the receivers take concurrently is simply no longer there to discard.  A drain that counts the
+// queue first and then receives that many messages with blocking receives (seeded C08-m6) waits for ever for the
+// messages the receivers took - holding the channel's write lock, so GetStats / AddClient / the timeout scan hang behind
+// it.  The free-running concurrent leg reaches that state only by luck (memory queue of 4, the next publish releases it).
+func vfE5ReplayEmptyDrain(t *testing.T, name string) {
+	opts := vfE5Opts(t.TempDir())
+	backlog := vfEnvInt("VERIF_BACKLOG", 6000)
+	opts.MemQueueSize = int64(backlog + 100)
+	n, err := New(opts)
+	if err != nil {
+		t.Fatal(err)
+	}
+	rounds := vfEnvInt("VERIF_ROUNDS", 12)
+	deadline := time.Duration(vfEnvInt("VERIF_OP_DEADLINE_MS", 8000)) * time.Millisecond
+	var takenTotal, concurrent int64
+	blocked, stats, wrong := "", "", ""
+	done := 0
+	for i := 0; i < rounds && blocked == "" && wrong == ""; i++ {
+		tn := fmt.Sprintf("dr%d", i)
+		topic := n.GetTopic(tn)
+		ch := topic.GetChannel("c")
+		for k := 0; k < backlog; k++ {
+			ch.PutMessage(NewMessage(vfE5ID(i*100000+k+1), []byte("m")))
+		}
+		queue := ch.memoryMsgChan
+		if len(queue) != backlog {
+			wrong = fmt.Sprintf("round=%d:memory_queue_holds_%d_of_%d", i, len(queue), backlog)
+			break
+		}
+		var taken int64
+		stopRecv := make(chan struct{})
+		recvDone := make(chan struct{}, 2)
+		for g := 0; g < 2; g++ {
+			go func() {
+				defer func() { recvDone <- struct{}{} }()
+				for {
+					select {
+					case m := <-queue:
+						if m != nil {
+							atomic.AddInt64(&taken, 1)
+						}
+					case <-stopRecv:
+						return
+					}
+				}
+			}()
+		}
+		for atomic.LoadInt64(&taken) < 2 {
+			runtime.Gosched()
+		}
+		before := atomic.LoadInt64(&taken)
+		op := "empty"
+		var opErr error
+		var r string
+		if i%2 == 0 {
+			r = vfE5Try(deadline, func() { opErr = ch.Empty() })
+		} else {
+			op = "deletechan"
+			r = vfE5Try(deadline, func() { opErr = topic.DeleteExistingChannel("c") })
+		}
+		after := atomic.LoadInt64(&taken)
+		if r != "ok" {
+			blocked = fmt.Sprintf("round=%d:op=%s:%s", i, op, r)
+			// what hangs behind it: the statistics take the channel's read lock
+			stats = vfE5Try(2*time.Second, func() { n.GetStats("", "", true) })
+			takenTotal += after
+			break
+		}
+		close(stopRecv)
+		<-recvDone
+		<-recvDone
+		takenTotal += atomic.LoadInt64(&taken)
+		if after > before && after < int64(backlog) {
+			concurrent++ // the receivers took messages while the operation ran (or just before it locked)
+		}
+		if opErr != nil {
+			wrong = fmt.Sprintf("round=%d:op=%s:error:%s", i, op, strings.ReplaceAll(opErr.Error(), " ", "_"))
+		} else if d := ch.Depth(); d != 0 {
+			wrong = fmt.Sprintf("round=%d:op=%s:depth_afterwards=%d", i, op, d)
+		} else if _, err := topic.GetExistingChannel("c"); op == "deletechan" && err == nil {
+			wrong = fmt.Sprintf("round=%d:channel_still_linked_after_delete", i)
+		}
+		done++
+	}
+	if blocked == "" {
+		blocked = "none"
+	}
+	if wrong == "" {
+		wrong = "none"
+	}
+	if stats == "" {
+		stats = "not-probed"
+	}
+	fmt.Printf("E5REPLAY %s rounds=%d backlog=%d taken_by_receivers=%d rounds_receivers_overlapped=%d blocked=%s stats_behind_it=%s wrong=%s\n",
+		name, done, backlog, takenTotal, concurrent, blocked, stats, wrong)
+	if blocked != "none" {
+		os.Exit(0) // goroutines are stuck inside the channel lock: do not wait for them
+	}
+	vfE5Try(deadline, func() { n.Exit() })
 }
